@@ -112,7 +112,8 @@ impl<'a, P: ?Sized + PathImpl> PathMutImpl<'a, P> {
 		} else {
 			let bytes = self.as_bytes();
 			let mut start_offset = 0usize;
-			if (self.follows_authority || bytes.len() > 3) && bytes.ends_with(b"/./") {
+			if self.follows_authority && bytes == b"/./" {
+				// the `.` segment only shields the empty segment,
 				// we can remove the `./` here.
 				start_offset = 2;
 			};
